@@ -117,6 +117,12 @@ def inline_assign_without_dataflow_check(r):
     c = args[0]._impl
     s1 = c._node
     sibs, k = _block_and_index(c)
+    if r.get("kind") == "compile_crash":
+        # the inlined scalar is handed to a sub-procedure: the call then receives an indexed read (f(..., x[i, j]))
+        for s in sibs[k + 1 :]:
+            for st in _all_stmts([s]):
+                if isinstance(st, LoopIR.Call) and any(isinstance(a, LoopIR.Read) and a.name == s1.name for a in st.args):
+                    return True
     alloc_here = any(isinstance(s, LoopIR.Alloc) and s.name == s1.name for s in sibs[:k])
     after = sibs[k + 1 :]
     idx_txt = [str(i) for i in s1.idx]
@@ -329,7 +335,11 @@ def replace_infers_empty_window(r):
     statements with size 0 and an empty window x[0:0]."""
     if r.get("op") != "replace":
         return False
-    return bool(re.search(r"\[\s*0\s*:\s*0\s*[\],]", r.get("q_src") or ""))
+    if re.search(r"\[\s*0\s*:\s*0\s*[\],]", r.get("q_src") or ""):
+        return True
+    # the same missing check (size arguments of the inserted call are never required to be >= 1) when the size is
+    # the trip count of a replaced loop that may run zero times: for ii in seq(0, n % 2) -> sp_copy(n % 2 + 0, ...)
+    return r.get("kind") == "call_size" or str(r.get("detail", "")).startswith("call_size")
 
 
 def _all_stmts(stmts, out=None):
